@@ -98,8 +98,8 @@ def gen(run, tag, warm, alpha, steps, defer, addpath, exh, num=0, seed=1, timeou
 
 def design(run, thorough):
     """mechanism => property, exhaustively; and each known defect is a design-level counterexample"""
-    sizes = [("a", 5, 11 if thorough else 9), ("a", 0, 10 if thorough else 8), ("b", 5, 9 if thorough else 7),
-             ("c", 0, 11 if thorough else 9)]
+    sizes = [("a", 5, 13 if thorough else 9), ("a", 0, 12 if thorough else 8), ("b", 5, 10 if thorough else 7),
+             ("c", 0, 13 if thorough else 9)]
     for pool, defer, n in sizes:
         cfg = "MCVrfRtc_%s_%d_%d.cfg" % (pool, defer, n)
         v.write_cfg(run.sc, cfg, MC_CFG % {"defects": "{}", "n": n, "defer": defer, "pool": pool})
